@@ -27,11 +27,13 @@ template<class V, bool F = std::is_floating_point<typename V::scalar>::value> st
 
 template<class V> struct Common {
     typedef typename V::scalar T; typedef typename V::mask M;
+    static V vec_from(const T* p) { typename V::primitive pr; std::memcpy(&pr, p, sizeof pr); return V(pr); }
     template<class Gen>
     static void run(Cell& c, const EnvCase& e, Gen gen) {
         alignas(64) T buf[V::width * 2 + 8];
         for (unsigned i = 0; i < V::width * 2 + 8; ++i) buf[i] = gen(i);
-        V a = avel::load<V>(buf), b = avel::load<V>(buf + 3);
+        // operands are built from the raw primitive (memcpy), so the set-up does not depend on AVEL's own loads
+        V a = vec_from(buf), b = vec_from(buf + 3);
         M m = a < b;
         volatile unsigned sink = 0;
 #define P(NAME, ...) probe(c, NAME, e, (uint32_t)(hash_str(NAME) % 3000) + 1, [&]() { auto r_ = (__VA_ARGS__); (void)r_; sink = sink + 1; });
@@ -54,7 +56,7 @@ template<class V> struct Ops<V, false> {
         Common<V>::run(c, e, [salt](unsigned i) { return (T)(salt * (i + 1) * 0x9E3779B97F4A7C15ull >> 17); });
         alignas(64) T buf[V::width * 2 + 8];
         for (unsigned i = 0; i < V::width * 2 + 8; ++i) { buf[i] = (T)(r.next() >> (r.next() % 40)); }
-        V a = avel::load<V>(buf), b = avel::load<V>(buf + 3);
+        V a = Common<V>::vec_from(buf), b = Common<V>::vec_from(buf + 3);
         V nz = avel::max(b, V(T(1))) | V(T(1));
         volatile unsigned sink = 0;
         P("div", avel::div(a, nz)) P("quot", a / nz) P("rem", a % nz) P("and", a & b) P("or", a | b) P("not", ~a)
@@ -96,7 +98,7 @@ template<class V> struct Ops<V, true> {
         Common<V>::run(c, e, gen);
         alignas(64) T buf[V::width * 2 + 8];
         for (unsigned i = 0; i < V::width * 2 + 8; ++i) buf[i] = gen(i + 11);
-        V a = avel::load<V>(buf), b = avel::load<V>(buf + 3);
+        V a = Common<V>::vec_from(buf), b = Common<V>::vec_from(buf + 3);
         IV ex; IV e2(typename IV::scalar(5));
         volatile unsigned sink = 0;
         P("div", a / b) P("sqrt", avel::sqrt(a)) P("abs", avel::abs(a)) P("neg_abs", avel::neg_abs(a)) P("negate", avel::negate(a < b, a)) P("copysign", avel::copysign(a, b))
